@@ -413,8 +413,9 @@ func (l *Linter) lintSubRoutineDeclaration(decl *ast.SubroutineDeclaration, ctx 
 	cc.ReturnType = nil
 
 	// Check ignored UNUSED_DECLARATION rule and mark as used
-	if l.ignore.IsEnable(UNUSED_DECLARATION) {
-		ctx.Subroutines[decl.Name.Value].IsUsed = true
+	// The subroutine is not registered when its name conflicts with a builtin function
+	if s, ok := ctx.Subroutines[decl.Name.Value]; ok && l.ignore.IsEnable(UNUSED_DECLARATION) {
+		s.IsUsed = true
 	}
 
 	return types.NeverType
